@@ -63,7 +63,16 @@ def concrete(vals):
 def with_pandas_replay(model_verdict_fn, pandas_verdict_fn, args_concrete):
     """Verdict from the model; on a concrete replay the same run is repeated on the real
     pandas and must agree, otherwise the model (not streamz) is at fault -> harness error."""
-    v = model_verdict_fn()
+    try:
+        v = model_verdict_fn()
+    except (AttributeError, NotImplementedError) as exc:
+        import traceback
+        tb = traceback.extract_tb(exc.__traceback__)
+        if any("mframe.py" in fr.filename or "aggregations.py" in fr.filename or "dataframe/core.py" in fr.filename
+               for fr in tb):
+            # streamz used a pandas API the model does not provide: the model (not streamz) is at fault
+            return "HARNESS:model-lacks-api(%s)" % str(exc)[:80]
+        raise
     if args_concrete and not is_tracing():
         pv = pandas_verdict_fn()
         if pv != v:
